@@ -17,6 +17,13 @@ def main():
     try:
         sh("git -C /repo worktree add --detach %s HEAD" % wt)
         a = sh("git -C %s apply %s" % (wt, os.path.join(src, "patch.diff")))
+        base = os.environ.get("REFACTOR_BASE")
+        if a.returncode != 0 and base:
+            # the refactoring was written against an earlier commit of /repo: evaluate it there
+            sh("git -C /repo worktree remove --force %s" % wt)
+            sh("git -C /repo worktree add --detach %s %s" % (wt, base))
+            a = sh("git -C %s apply %s" % (wt, os.path.join(src, "patch.diff")))
+            out["evaluated_at"] = base
         out["patch_applies"] = a.returncode == 0
         if a.returncode == 0:
             b = sh("/venv/bin/python %s/tools/baseline_off.py --repo %s" % (HERE, wt))
